@@ -226,12 +226,73 @@ impl Prop for UnknownNames {
     }
 }
 
+// ------------------------------------------------------------ restated slots
+
+/// A derived table that restates a base slot with another convention.
+pub struct Restated;
+
+impl Prop for Restated {
+    type Case = crate::checks::c06::VerdictCase;
+    crate::prog_shrink!();
+    fn name(&self) -> String {
+        "C16/restated".into()
+    }
+    fn rule(&self) -> String {
+        "inheritance chains of depth 1-4 (the C06 generator: root table of 1-4 slots over all conventions, index gaps, levels extending or inheriting the table) whose last level restates the base table either faithfully, with the default convention spelled out, or with ONE slot's convention changed to a different effective one (attribute changed, added or dropped). Oracle: either the build is an error, or in the emitted code every base slot has one and the same ABI string in the root's table and in the table of every level (syn view of each <L>Vftable), equal to the root declaration's convention. Non-trivial: depth >= 2 or a changed convention".into()
+    }
+    fn gen(&self, t: &mut Tape) -> Self::Case {
+        let force = *t.pick(&[6u64, 6, 6, 0, 9]);
+        crate::checks::c06::gen_verdict_case_with(t, Some(force))
+    }
+    fn judge(&self, c: &Self::Case) -> Outcome {
+        let res = build_prog(&c.prog, c.w as usize);
+        let class = format!("restated:{}", if c.mutation == "none" { "faithfully" } else { "other-convention" });
+        let built = match res {
+            Res::Panic(p) => return Outcome::fail("panic", p),
+            Res::Err(_) => return Outcome::pass(c.mutation != "none").class(&class).class("rejected"),
+            Res::Ok(b) => b,
+        };
+        let m = &c.prog.mods[0];
+        let v = match rsview::view(&built.files[&m.out_path()]) {
+            Ok(v) => v,
+            Err(e) => return Outcome::fail("unparsable", e),
+        };
+        // the root's declaration decides
+        let Some(root) = m.types().find(|t| t.name == "L0") else { return Outcome::discard("no-root") };
+        let Some(rv) = &root.vft else { return Outcome::discard("no-root-table") };
+        let slots = vft_slots(rv);
+        let mut levels = 0;
+        for td in m.types().filter(|t| t.name.starts_with('L')) {
+            let Some(sv) = v.strukt(&format!("{}Vftable", td.name)) else { continue };
+            levels += 1;
+            for (f, s) in rv.funcs.iter().zip(slots.slot.iter()) {
+                let want = Model::expected_cc(f);
+                let Some(fv) = sv.fields.get(*s as usize) else {
+                    return Outcome::fail("slot-missing", format!("{}Vftable has no slot {s}", td.name));
+                };
+                if fv.abis.first().and_then(|a| a.as_deref()) != Some(want.as_str()) {
+                    return Outcome::fail(
+                        "restated-convention",
+                        format!("base slot {s} (`{}`) is \"{want}\" in L0Vftable but {:?} in {}Vftable (mutation: {})", f.name, fv.abis, td.name, c.mutation),
+                    )
+                    .class(&class);
+                }
+            }
+        }
+        Outcome::pass(levels >= 2).class(&class).class("accepted")
+    }
+    fn show(&self, c: &Self::Case) -> Value {
+        json!({"width": c.w, "mutation": c.mutation, "pyxis": prog_text(&c.prog)})
+    }
+}
+
 pub fn props() -> Vec<Box<dyn DynProp>> {
-    vec![Box::new(Conventions), Box::new(UnknownNames)]
+    vec![Box::new(Conventions), Box::new(UnknownNames), Box::new(Restated)]
 }
 
 pub fn run(ctx: &mut Ctx) {
     let q = ctx.quick();
     ctx.run(&Conventions, &Params::new(if q { 8_000 } else { 300_000 }, 100, 2500).shrink(300));
     ctx.run(&UnknownNames, &Params::new(if q { 400 } else { 4_000 }, 4, 8));
+    ctx.run(&Restated, &Params::new(if q { 10_000 } else { 300_000 }, 30, 300));
 }
